@@ -20,10 +20,11 @@ import (
 
 func TestVerif(t *testing.T) {
 	vrep.Main(t, "github.com/google/licenseclassifier/commentparser", map[string]vrep.Harness{
-		"c18_lexer":  c18Lexer,
-		"c18_chunks": c18Chunks,
-		"c18_long":   c18Long,
-		"c18_lines":  c18Lines,
+		"c18_lexer":   c18Lexer,
+		"c18_chunks":  c18Chunks,
+		"c18_long":    c18Long,
+		"c18_lines":   c18Lines,
+		"c18_history": c18History,
 	})
 }
 
@@ -602,6 +603,85 @@ func c18Lines(c *vrep.Ctx) {
 		if m := r.Note["msg"].(string); m != "" {
 			id := r.Note["id"].(string)
 			c.Violate("c18_lines:"+strings.ReplaceAll(id, " ", "_"), id+": "+m, r, m)
+		}
+	})
+}
+
+// c18History: every sequence of 2..3 Parse calls over a pool of small sources in different
+// languages; ALL results are kept and compared with the reference lexer only after the last call
+// (a result must stay what it was when it was returned), and the chunks of the first result are
+// consumed while the later sources are being parsed.
+func c18History(c *vrep.Ctx) {
+	type src struct {
+		lang int
+		text string
+	}
+	pool := []src{
+		{2, "int a; // one\n/* two\n   lines */\nint b; // three\n// four\n"},
+		{langPython, "# alpha\nx = 1  # beta\n\"\"\"doc\nstring\"\"\"\n"},
+		{langGo, "// one\n// two\n\nfunc f() {} // three\n\n\n// four\n"},
+		{18, "-- x\n{- y\n   z -}\nmain = 1 -- w\n"},
+		{2, "no comments here\n"},
+		{langHTML, "<!-- a -->\n<p>t</p>\n<!-- b\n c -->\n"},
+	}
+	maxLen := c.Pick(3, 4)
+	c.R.Rule = fmt.Sprintf("ALL sequences of 2..%d Parse calls over %d small sources (C, Python, Go, Haskell, HTML, one without comments): every result, checked AFTER the last call, equals the reference lexer's comments for its own source, and the chunks of the first result (consumed while the later sources are parsed) are the chunks of its own comments; non-trivial = sequences", maxLen, len(pool))
+	c.Bound("max_calls", maxLen)
+	chunksOf := func(cs Comments) string {
+		var out []string
+		for ch := range cs.ChunkIterator() {
+			out = append(out, fmtGot(ch))
+		}
+		return strings.Join(out, " || ")
+	}
+	body := func(r *vx.Run) {
+		n := 2 + r.Choose(maxLen-1, "len")
+		seq := make([]int, n)
+		for i := range seq {
+			seq[i] = r.Choose(len(pool), "source")
+		}
+		if r.Scout() {
+			return
+		}
+		msg := ""
+		func() {
+			defer func() {
+				if x := recover(); x != nil {
+					msg = fmt.Sprint("panic: ", x)
+				}
+			}()
+			res := make([]Comments, n)
+			res[0] = Parse([]byte(pool[seq[0]].text), language.Language(pool[seq[0]].lang))
+			wantChunks := chunksOf(append(Comments(nil), res[0]...))
+			var gotChunks []string
+			i := 1
+			for ch := range res[0].ChunkIterator() {
+				gotChunks = append(gotChunks, fmtGot(ch))
+				if i < n {
+					res[i] = Parse([]byte(pool[seq[i]].text), language.Language(pool[seq[i]].lang))
+					i++
+				}
+			}
+			for ; i < n; i++ {
+				res[i] = Parse([]byte(pool[seq[i]].text), language.Language(pool[seq[i]].lang))
+			}
+			for k := range res {
+				want := refLex(pool[seq[k]].text, pool[seq[k]].lang)
+				if fmtGot(res[k]) != fmtRef(want) && msg == "" {
+					msg = fmt.Sprintf("after all calls, result %d (source %d) is %s, the reference lexer says %s", k, seq[k], fmtGot(res[k]), fmtRef(want))
+				}
+			}
+			if g := strings.Join(gotChunks, " || "); g != wantChunks && msg == "" {
+				msg = fmt.Sprintf("chunks of the first result consumed during the later calls: %s, consumed at once: %s", g, wantChunks)
+			}
+		}()
+		r.Note = map[string]interface{}{"id": fmt.Sprint("sources ", seq), "msg": msg}
+	}
+	c.Run(vSplit(c, 0, 2), body, func(r *vx.Run) {
+		c.R.Nontrivial++
+		if m := r.Note["msg"].(string); m != "" {
+			id := r.Note["id"].(string)
+			c.Violate("c18_history:"+strings.ReplaceAll(id, " ", "_"), id+": "+m, r, m)
 		}
 	})
 }
